@@ -2,7 +2,7 @@
     Statements only; proofs in Blocks.v, Handler.v. *)
 From Coq Require Import List Arith Lia PeanoNat.
 Import ListNotations.
-From PGV Require Import NdIndex Blocks Layouts Handler HandlerBuf.
+From PGV Require Import NdIndex Blocks Layouts Handler HandlerBuf TransposeExec Accessors.
 
 (** the blocks start at 0, end at n, and are in rank order *)
 Theorem c02_starts_0 : forall n p, bstart n p 0 = 0.
@@ -81,6 +81,38 @@ Proof. exact pair_bufsize_ge_size. Qed.
 Print Assumptions c02_pair_bufsize_ge_size.
 
 (** non-vacuity: 7 points on 3 processes *)
+(** value-level accessors of Grid: getCoordVals(i) / getCoords(i) return exactly the block of the coordinate array of the
+    dimension carried by axis i; getEta(e) is getCoords at the position of dimension e in the layout (its index in
+    dims_order, not dims_order[e]); the blocks of the ranks of a process direction concatenate to the whole array *)
+Theorem c02_coord_vals : forall (A : Type) (dv : A) eta N nprocs dims coords i,
+  i < length dims -> 0 < np_at nprocs i -> rk_at coords i < np_at nprocs i ->
+  length (nth (nth i dims 0) eta []) = ax_n N dims i ->
+  length (acc_coord_vals A eta N nprocs dims coords i) = nth i (l_shape N nprocs dims coords) 0 /\
+  forall k, k < nth i (l_shape N nprocs dims coords) 0 ->
+    nth k (acc_coord_vals A eta N nprocs dims coords i) dv
+    = nth (nth i (l_starts N nprocs dims coords) 0 + k) (nth (nth i dims 0) eta []) dv.
+Proof. exact coord_vals_spec. Qed.
+Print Assumptions c02_coord_vals.
+
+Theorem c02_get_coords : forall (A : Type) (dv : A) eta N nprocs dims coords i,
+  i < length dims -> 0 < np_at nprocs i -> rk_at coords i < np_at nprocs i ->
+  length (nth (nth i dims 0) eta []) = ax_n N dims i ->
+  map fst (acc_get_coords A eta N nprocs dims coords i) = seq 0 (nth i (l_shape N nprocs dims coords) 0) /\
+  map snd (acc_get_coords A eta N nprocs dims coords i) = acc_coord_vals A eta N nprocs dims coords i.
+Proof. exact get_coords_spec. Qed.
+Print Assumptions c02_get_coords.
+
+Theorem c02_get_eta : forall (A : Type) d eta N nprocs dims coords e,
+  perm_b d dims = true -> e < d ->
+  acc_get_eta A eta N nprocs dims coords e = acc_get_coords A eta N nprocs dims coords (index_of dims e).
+Proof. exact get_eta_is_get_coords. Qed.
+Print Assumptions c02_get_eta.
+
+Theorem c02_coord_blocks_concat : forall (A : Type) (dv : A) (l : list A) p, 0 < p ->
+  blocks_concat A l (length l) p p = l.
+Proof. exact blocks_concat_all. Qed.
+Print Assumptions c02_coord_blocks_concat.
+
 Example c02_example : starts_table 7 3 = [0; 2; 4; 7] /\ bmax 7 3 = 3 /\ owner 7 3 4 = 2
   /\ handler_bufsize [4;5;7;8] [1;3] [0;1] [flux_surface; v_parallel; poloidal] = 540.
 Proof. vm_compute. repeat split. Qed.
